@@ -12,16 +12,21 @@
 namespace api {
 using vh::Bytes; using vh::XBuf; using vh::Rng;
 
+// NOTE on evaluation order: C++ leaves the order in which the arguments of one call are evaluated unspecified (clang goes left to
+// right, gcc right to left).  A driver must be a pure function of (seed, lengths) in EVERY compiler, because C10 compares digests
+// across clang and gcc builds.  Therefore: buffer alignments come from their own stream (allocating a buffer never disturbs the data
+// stream), the output buffers enter the digest through an order-independent sum, and no full expression contains more than one draw
+// from the data stream `r` (tools: /verif/tools/evalorder.py lists offenders).
 struct Ctx {
-    Rng r;
+    Rng r; Rng ra;
     std::vector<size_t> fixed_lens; size_t li = 0; size_t maxlen = 1100;
     bool misalign = true; bool allow_null = true; bool tamper_inputs = true;
     std::vector<std::unique_ptr<XBuf>> bufs; std::vector<XBuf *> outs;
     uint64_t digest = 0x243f6a8885a308d3ULL; int calls = 0;
-    explicit Ctx(uint64_t seed) : r(seed) {}
+    explicit Ctx(uint64_t seed) : r(seed), ra(seed ^ 0xa11c0de5a11c0de5ULL) {}
     size_t len() { if (li < fixed_lens.size()) return fixed_lens[li++]; return vh::pick_len(r, maxlen); }
     size_t len(size_t cap) { size_t l = len(); return cap ? l % (cap + 1) : 0; }
-    size_t al() { return misalign ? (size_t) r.below(16) : 0; }
+    size_t al() { return misalign ? (size_t) ra.below(16) : 0; }
     uint8_t *in(size_t n, int cls = 0) { Bytes b = r.bytes_class(n, cls); bufs.emplace_back(new XBuf(b, al())); return bufs.back()->p; }
     uint8_t *inb(const Bytes &b) { bufs.emplace_back(new XBuf(b, al())); return bufs.back()->p; }
     uint8_t *in_or_null(size_t n) { if (n == 0 && allow_null && r.coin()) return nullptr; return in(n); }    // NULL is in contract only with length 0
@@ -35,7 +40,7 @@ struct Ctx {
     void rcv(int r, const uint8_t *p, size_t n) { rc(r); if (r == 0) val(p, n); }
     bool chance(unsigned one_in) { return r.below(one_in) == 0; }
     void tamper(uint8_t *p, size_t n) { if (tamper_inputs && n && chance(2)) p[r.below(n)] ^= (uint8_t) (1u << r.below(8)); }
-    uint64_t finish() { for (XBuf *o : outs) digest = vh::mix64(digest, vh::hash_bytes(o->p, o->n)); return digest; }
+    uint64_t finish() { uint64_t sum = 0; for (XBuf *o : outs) sum += vh::mix64(vh::hash_bytes(o->p, o->n), o->n); return vh::mix64(digest, sum); }
     ~Ctx() { for (void *p : states) free(p); }
 };
 
@@ -164,7 +169,7 @@ STREAM_ENTRY(salsa208, 8)
     static void stream_##P(Ctx &c) { size_t l = c.len(); uint8_t *k = c.in(32), *n = c.in(NB), *m = c.in(l);                                    \
         uint64_t ic = c.r.below(3) == 0 ? 0xfffffff0ULL + c.r.below(32) : (c.r.below(3) == 0 ? c.r.next() : c.r.below(100));                    \
         /* the 2^32 carry placed where a vector stride (4 or 8 blocks) or the tail after it begins */                                            \
-        if (c.r.below(4) == 0) { uint64_t stride = c.r.below(2) ? 4 : 8, full = (l / 64) / stride * stride; ic = 0x100000000ULL * (1 + c.r.below(3)) - (c.r.below(2) ? full : c.r.below(full + 1)) + c.r.below(3) - 1; } \
+        if (c.r.below(4) == 0) { uint64_t stride = c.r.below(2) ? 4 : 8, full = (l / 64) / stride * stride; uint64_t hi = 1 + c.r.below(3); uint64_t back = c.r.below(2) ? full : 0; if (!back) back = c.r.below(full + 1); uint64_t jit = c.r.below(3); ic = 0x100000000ULL * hi - back + jit - 1; } \
         if (sizeof(ICT) == 4) { uint64_t blocks = (l + 63) / 64; ic &= 0xffffffffULL; if (ic + blocks > 0x100000000ULL) ic = 0x100000000ULL - blocks; if (ic > 0xffffffffULL) ic = 0; }  \
         c.rc(crypto_stream_##P(c.out(l), l, n, k)); c.rc(crypto_stream_##P##_xor(c.out(l), m, l, n, k)); c.rc(crypto_stream_##P##_xor_ic(c.out(l), m, l, n, (ICT) ic, k)); }
 STREAM_IC_ENTRY(chacha20, 8, uint64_t)
@@ -330,7 +335,7 @@ static void codecs_all(Ctx &c) {
     size_t l = c.len(300); uint8_t *bin = c.in(l);
     char *hex = (char *) c.out(2 * l + 1); sodium_bin2hex(hex, 2 * l + 1, bin, l); c.rc(0);
     size_t bl = 0; const char *end = nullptr;
-    c.rc(sodium_hex2bin(c.out(l), l, hex, 2 * l, c.r.coin() ? ": " : nullptr, &bl, c.r.coin() ? &end : nullptr)); c.rc((long) bl);
+    { bool ig = c.r.coin(); bool we = c.r.coin(); c.rc(sodium_hex2bin(c.out(l), l, hex, 2 * l, ig ? ": " : nullptr, &bl, we ? &end : nullptr)); }; c.rc((long) bl);
     for (int variant : { 1, 3, 5, 7 }) {
         size_t el = sodium_base64_encoded_len(l, variant); c.rc((long) el);
         char *b64 = (char *) c.out(el); sodium_bin2base64(b64, el, bin, l, variant);
@@ -342,10 +347,10 @@ static void codecs_all(Ctx &c) {
     for (auto &ch : t) if (!c.chance(8)) ch = (uint8_t) AL[ch % (sizeof AL - 1)];
     uint8_t *tp = c.inb(t); const char *ign = c.r.coin() ? " \n:" : nullptr;
     c.rc(sodium_hex2bin(c.out(cap), cap, (const char *) tp, tl, ign, &bl, c.r.coin() ? &end : nullptr));
-    c.rc(sodium_base642bin(c.out(cap), cap, (const char *) tp, tl, ign, &bl, c.r.coin() ? &end : nullptr, 1 + 2 * (int) c.r.below(4)));
+    { bool we = c.r.coin(); int variant = 1 + 2 * (int) c.r.below(4); c.rc(sodium_base642bin(c.out(cap), cap, (const char *) tp, tl, ign, &bl, we ? &end : nullptr, variant)); };
 }
 static void pad_all(Ctx &c) {
-    size_t l = c.len(300), bs = c.chance(4) ? (size_t) 1 << c.r.below(10) : 1 + c.r.below(130), padded = (l / bs + 1) * bs, cap = padded + c.r.below(3) - (c.chance(5) ? 1 : 0);
+    size_t l = c.len(300), bs = c.chance(4) ? (size_t) 1 << c.r.below(10) : 1 + c.r.below(130), padded = (l / bs + 1) * bs, capj = c.r.below(3), cap = padded + capj - (c.chance(5) ? 1 : 0);
     if (cap < l) cap = l;
     Bytes buf = c.r.bytes(cap); uint8_t *p = c.inb(buf); c.outs.push_back(c.bufs.back().get());
     size_t pl = 0, ul = 0; int r = sodium_pad(&pl, p, l, bs, cap); c.rc(r); c.rc((long) pl);
@@ -356,15 +361,15 @@ static void pad_all(Ctx &c) {
 // ------------------------------------------------------------------------------------------------------------ password hashing (small costs, cost-guarded strings)
 static void pwhash_all(Ctx &c) {
     size_t pl = c.len(100), ol = 16 + c.r.below(100); uint8_t *pw = c.in(pl), *salt = c.in(32);
-    size_t mem = 8192 + 1024 * c.r.below(56) + c.r.below(1024);
+    size_t memk = c.r.below(56), mem = 8192 + 1024 * memk + c.r.below(1024);
     if (c.chance(3)) mem = 1024 * (516 + c.r.below(600));      // segment length > 128: more than one address block per segment
     c.rc(crypto_pwhash(c.out(ol), ol, (const char *) pw, pl, salt, 3, mem, crypto_pwhash_ALG_ARGON2I13)); c.rc(crypto_pwhash(c.out(ol), ol, (const char *) pw, pl, salt, 1 + c.r.below(2), mem, crypto_pwhash_ALG_ARGON2ID13));
     c.rc(crypto_pwhash_argon2i(c.out(ol), ol, (const char *) pw, pl, salt, 3, mem, 1)); c.rc(crypto_pwhash_argon2id(c.out(ol), ol, (const char *) pw, pl, salt, 1, mem, 2));
-    c.rc(crypto_pwhash_scryptsalsa208sha256_ll(pw, pl, salt, c.r.below(33), (uint64_t) 1 << (1 + c.r.below(6)), 1 + (uint32_t) c.r.below(3), 1 + (uint32_t) c.r.below(2), c.out(ol), ol));
+    { size_t sl_ = c.r.below(33); uint64_t N_ = (uint64_t) 1 << (1 + c.r.below(6)); uint32_t r_ = 1 + (uint32_t) c.r.below(3); uint32_t p_ = 1 + (uint32_t) c.r.below(2); c.rc(crypto_pwhash_scryptsalsa208sha256_ll(pw, pl, salt, sl_, N_, r_, p_, c.out(ol), ol)); };
     c.rc(crypto_pwhash_scryptsalsa208sha256(c.out(ol), ol, (const char *) pw, pl, salt, 32768, 1 << 16));
     // parameters every scrypt backend must refuse alike (N not a power of two or below 2, r or p zero): only the verdict is recorded
     { static const uint64_t NB[] = { 0, 1, 3, 5, 6, 12, (uint64_t) 1 << 32 }; uint8_t *junk = c.scratch(ol);
-      c.rc(crypto_pwhash_scryptsalsa208sha256_ll(pw, pl, salt, 8, NB[c.r.below(7)], 1 + (uint32_t) c.r.below(2), 1, junk, ol));
+      { uint64_t Nb = NB[c.r.below(7)]; uint32_t rb = 1 + (uint32_t) c.r.below(2); c.rc(crypto_pwhash_scryptsalsa208sha256_ll(pw, pl, salt, 8, Nb, rb, 1, junk, ol)); }
       c.rc(crypto_pwhash_scryptsalsa208sha256_ll(pw, pl, salt, 8, 16, 0, 1, junk, ol)); c.rc(crypto_pwhash_scryptsalsa208sha256_ll(pw, pl, salt, 8, 16, 1, 0, junk, ol)); }
     // fixed well-formed strings (the _str producers draw a random salt, so they are not deterministic entries)
     static const char *S1 = "$argon2id$v=19$m=8,t=1,p=1$c29tZXNhbHRzb21lc2FsdA$Nf0LOcFbTX0x1h/lJ0UKzTCzQS5CKUhqpMp1QL6o8dM";
@@ -425,7 +430,7 @@ static void scrypt_params(Ctx &c) {
 // code of every block-fill backend regenerates its address block inside a segment only from here on
 static void pwhash_large(Ctx &c) {
     size_t pl = c.len(40), ol = 16 + c.r.below(50); uint8_t *pw = c.in(pl), *salt = c.in(16);
-    size_t mem = 1024 * (516 + c.r.below(560)) + c.r.below(1024);
+    size_t memk = c.r.below(560), mem = 1024 * (516 + memk) + c.r.below(1024);
     c.rc(crypto_pwhash(c.out(ol), ol, (const char *) pw, pl, salt, 3, mem, crypto_pwhash_ALG_ARGON2I13));
     c.rc(crypto_pwhash(c.out(ol), ol, (const char *) pw, pl, salt, 1, mem, crypto_pwhash_ALG_ARGON2ID13));
 }
